@@ -579,6 +579,16 @@ impl Plist {
     }
 
     /**
+     * Verification hook (only compiled with `--cfg pkgsrc_verif`): the parsed
+     * entries, in order.  The entry vector is otherwise private and only
+     * partially visible through the query functions.
+     */
+    #[cfg(pkgsrc_verif)]
+    pub fn verif_entries(&self) -> &[PlistEntry] {
+        &self.entries
+    }
+
+    /**
      * Return the package name as specified with `@name`.  If multiple entries
      * are found only the first is returned.  This is wrapped in [`Option`] as
      * while indicated as mandatory in the manual page it is often left out,
